@@ -28,6 +28,7 @@ type engine struct {
 	rep       *lib.Reporter
 	wd        *lib.Watchdog
 	extra     map[string]string
+	nworkers  int
 }
 
 func main() {
@@ -58,7 +59,8 @@ func main() {
 			e.extra[kv[:i]] = kv[i+1:]
 		}
 	}
-	e.wd = lib.NewWatchdog(*workers, *hang, rep)
+	e.wd = lib.NewWatchdog(*workers+8, *hang, rep) // 8 extra slots for checks that fan out (nesting limit)
+	e.nworkers = *workers
 
 	var logf *os.File
 	if *tlclog != "" {
